@@ -59,7 +59,17 @@ theorem inv_gocAtomic {cfg : LockCfg} {s s' : State} {w : Nat} (hi : Inv s)
         by_cases hiw : i = w
         · simp [hiw]
         · simp only [hiw, if_false]; intro hp; rw [hstart i] at hp; cases hp
+      · intro i
+        simp only [State.setW]
+        by_cases hiw : i = w
+        · simp [hiw]
+        · simp only [hiw, if_false]; intro hp; rw [hstart i] at hp; cases hp
       · intro t ht; simp [Study.new] at ht
+    · intro i
+      simp only [State.setW]
+      by_cases hiw : i = w
+      · simp [hiw]
+      · simp only [hiw, if_false]; intro hp; rw [hstart i] at hp; cases hp
   · -- later caller: fetches the registered study
     simp only [hr]
     have : s.setW w { s.workers w with study := 0, pc := .preSetup } = s.setPc w .preSetup := by
@@ -72,7 +82,7 @@ theorem inv_gocAtomic {cfg : LockCfg} {s s' : State} {w : Nat} (hi : Inv s)
         | mk g st pc tmp => rw [hwk] at this; simp at this; simp [this]
       · simp [hj]
     rw [this]
-    apply hi.updWorker w .preSetup rfl
+    apply hi.updWorker' w .preSetup (by intro h0; cases h0) rfl
     · intro hp; cases hp
     · intro h0; rw [hs] at h0; cases h0
     · intro st _; exact ⟨fun t ht => (nomatch ht), fun ht => (nomatch ht)⟩
@@ -92,7 +102,7 @@ theorem inv_setupAtomic {cfg : LockCfg} {s s' : State} {w : Nat} (hi : Inv s)
   obtain ⟨st, hs⟩ := studies_of_pc hi w (by rw [hpc]; intro h0; cases h0)
   by_cases hset : s.algo.isSetup = true
   · simp only [hset, if_true]
-    apply hi.updWorker w .loop rfl (fun _ => hset)
+    apply hi.updWorker' w .loop (by intro h0; cases h0) rfl (fun _ => hset)
     · intro h0; rw [hs] at h0; cases h0
     · intro st _; exact ⟨fun t ht => (nomatch ht), fun ht => (nomatch ht)⟩
   · have hset' : s.algo.isSetup = false := by simpa using hset
@@ -102,9 +112,10 @@ theorem inv_setupAtomic {cfg : LockCfg} {s s' : State} {w : Nat} (hi : Inv s)
     have hI := (hi.study st (by rw [hs]; simp))
     have hinv1 : Inv { s with algo := s.algo.setup } := by
       have := hi.updStudy st st s.algo.setup hs (by simp [Algo.setup]) (hI.1.setup hfresh.1 hst) id
+        (by intro he; simpa [Algo.spaceExhausted, Algo.setup, hfresh.2.1] using he)
       rw [← hs] at this
       exact this
-    apply hinv1.updWorker w .loop rfl
+    apply hinv1.updWorker' w .loop (by intro h0; cases h0) rfl
     · intro _; simp [Algo.setup]
     · intro h0; simp only [] at h0; rw [hs] at h0; cases h0
     · intro st _; exact ⟨fun t ht => (nomatch ht), fun ht => (nomatch ht)⟩
@@ -124,11 +135,11 @@ theorem inv_checkActive {cfg : LockCfg} {s s' : State} {w : Nat} (hi : Inv s)
   have hsetup := hi.setupFirst w (by rw [hc]; rfl)
   by_cases ha : st.active = true
   · simp only [ha, if_true]
-    apply hi.updWorker w .next rfl (fun _ => hsetup)
+    apply hi.updWorker' w .next (by intro h0; cases h0) rfl (fun _ => hsetup)
     · intro h0; rw [hs] at h0; cases h0
     · intro st _; exact ⟨fun t ht => (nomatch ht), fun ht => (nomatch ht)⟩
   · simp only [ha, if_false]
-    apply hi.updWorker w .finished rfl (fun _ => hsetup)
+    apply hi.updWorker' w .finished (by intro h0; cases h0) rfl (fun _ => hsetup)
     · intro h0; rw [hs] at h0; cases h0
     · intro st' hst'
       rw [hs] at hst'; simp only [List.mem_singleton] at hst'; subst hst'
@@ -145,7 +156,7 @@ theorem inv_release {cfg : LockCfg} {s s' : State} {w : Nat} (hi : Inv s)
   subst hs'
   obtain ⟨st, hs⟩ := studies_of_pc hi w (by rw [hpc]; intro h0; cases h0)
   have hsetup := hi.setupFirst w (by rw [hpc]; rfl)
-  apply hi.updWorker w .loop rfl (fun _ => hsetup)
+  apply hi.updWorker' w .loop (by intro h0; cases h0) rfl (fun _ => hsetup)
   · intro h0; rw [hs] at h0; cases h0
   · intro st _; exact ⟨fun t ht => (nomatch ht), fun ht => (nomatch ht)⟩
 
@@ -171,7 +182,7 @@ theorem inv_endLoop {cfg : LockCfg} {s s' : State} {w : Nat} (hi : Inv s)
   obtain ⟨hS, hW⟩ := hi.study st (by rw [hs]; simp)
   have := hi.updStudy st { st with active := false } s.algo hs hsetup
     hS.setActive
-    (fun hW => ⟨hW.holdOk, fun i _ hact => (nomatch hact), hW.groupOk⟩)
+    (fun hW => ⟨hW.holdOk, fun i _ hact => (nomatch hact), fun i _ hact => (nomatch hact), hW.groupOk⟩) id
   exact this
 
 /-- `_add_measurement` under the study lock (needs `addMeasurementAtomic`). -/
@@ -212,11 +223,13 @@ theorem inv_measure {cfg : LockCfg} {s s' : State} {w : Nat} {r : Int} (hi : Inv
       refine ⟨by simpa [Study.addMeas, updTrial_length] using h1, ?_⟩
       intro k hk
       exact isPending_updTrial_false st t k _ (fun _ => rfl) (fun _ hc => hc) (h2 k hk)
+    · intro i hp hact k hk
+      exact isPending_updTrial_false st t k _ (fun _ => rfl) (fun _ hc => hc) (hW.exhOk i hp hact k hk)
     · intro x hx
       obtain ⟨y, hy, rfl⟩ := mem_updTrial hx
       obtain ⟨i, hi', hg⟩ := hW.groupOk y hy
       refine ⟨i, hi', ?_⟩
-      by_cases hk : y.id = t <;> simp [hk, hg])
+      by_cases hk : y.id = t <;> simp [hk, hg]) id
   exact this
 
 theorem isPending_congr {st1 st2 : Study} (h : st1.trials = st2.trials) (k : Nat) :
@@ -248,6 +261,12 @@ theorem WorkersInv.finish {maxT : Option Nat} {n : Nat} {workers : Nat → Worke
     intro k' hk'
     rw [isPending_congr (complete_trials _ k) k']
     exact isPending_updTrial_false st k k' f hid hc (h2 k' hk')
+  · intro i hp hact
+    rw [complete_active] at hact
+    rw [complete_latest]
+    intro k' hk'
+    rw [isPending_congr (complete_trials _ k) k']
+    exact isPending_updTrial_false st k k' f hid hc (hW.exhOk i hp hact k' hk')
   · intro x hx
     rw [complete_trials] at hx
     obtain ⟨y, hy, rfl⟩ := mem_updTrial hx
@@ -257,31 +276,24 @@ theorem WorkersInv.finish {maxT : Option Nat} {n : Nat} {workers : Nat → Worke
     · rw [hg]; exact hgr
     · exact hgr
 
-/-- backend.next(): reuse of the group's pending trial or create_trial, under one hold of the study
-lock (needs `nextReuseAtomic` and `createTrialAtomic`). -/
-theorem inv_nextAtomic {cfg : LockCfg} {s s' : State} {w : Nat} (hi : Inv s)
-    (h : exec cfg s w .nextAtomic = some s') : Inv s' := by
-  simp only [exec] at h
-  split_ok at h
-  split_ok at h
-  rename_i hw hc
-  simp only [Bool.and_eq_true, beq_iff_eq] at hc
-  obtain ⟨-, hpc⟩ := hc
-  obtain ⟨st, hs⟩ := studies_of_pc hi w (by rw [hpc]; intro h0; cases h0)
-  rw [studyOf_eq hi w hs] at h
-  have hs' := Option.some.inj h
-  subst hs'
+/-- backend.next() under one hold of the study lock, with `dna_fn()` called before any bookkeeping
+(`early = false`): reuse of the group's pending trial, StopIteration by budget, a proposer that
+raises (exhausted space: StopIteration; `err`: a transient exception) — the study and the algorithm
+are then left untouched —, or creation of the next trial. -/
+theorem inv_nextAtomic_core {s : State} {w : Nat} (hi : Inv s) (hw : w < s.nWorkers)
+    (hpc : (s.workers w).pc = .next) {st : Study} (hs : s.studies = [st]) (err : Bool) :
+    Inv (nextAtomic s w st err false) := by
   have hsetup := hi.setupFirst w (by rw [hpc]; rfl)
   obtain ⟨hS, hW⟩ := hi.study st (by rw [hs]; simp)
   have hne : s.studies ≠ [] := by rw [hs]; simp
   -- the create_trial part, given that the group has no pending latest trial
   have hcreate : (∀ k, st.latest (s.workers w).group = some k → st.isPending k = false) →
-      Inv (createAtomic s w st) := by
+      Inv (createAtomic s w st err false) := by
     intro hlat
     unfold createAtomic
     by_cases hex : exhausted s.maxTrials st = true
     · simp only [hex, if_true]
-      apply hi.updWorker w .finished rfl (fun _ => hsetup) (fun h0 => absurd h0 hne)
+      apply hi.updWorker' w .finished (by intro h0; cases h0) rfl (fun _ => hsetup) (fun h0 => absurd h0 hne)
       intro st' hst'
       rw [hs] at hst'; simp only [List.mem_singleton] at hst'; subst hst'
       refine ⟨fun t ht => (nomatch ht), fun _ _ => ⟨?_, hlat⟩⟩
@@ -295,36 +307,60 @@ theorem inv_nextAtomic {cfg : LockCfg} {s s' : State} {w : Nat} (hi : Inv s)
                           omega⟩
     · have hex' : exhausted s.maxTrials st = false := by simpa using hex
       simp only [hex', Bool.false_eq_true, if_false]
-      have hst1 : ({ s with algo := s.algo.propose } : State).setStudy w (st.create (s.workers w).group)
-          = { s with studies := [st.create (s.workers w).group], algo := s.algo.propose } := by
-        simp [State.setStudy, hi.wstudy w, hs]
-      rw [hst1]
-      have hinv1 := hi.updStudy st (st.create (s.workers w).group) s.algo.propose hs
-        (by simpa [Algo.propose] using hsetup) (hS.create _ hex' hlat) (by
-          intro hW
-          constructor
-          · intro i t hp
-            obtain ⟨tr, htr, h1, h2⟩ := hW.holdOk i t hp
-            exact ⟨tr, by simp [Study.create, htr], h1, h2⟩
-          · intro i hp hact
-            exfalso
-            obtain ⟨⟨m, hm, hlen⟩, -⟩ := hW.finOk i hp (by simpa [Study.create] using hact)
-            simp [exhausted, hm] at hex'
-            omega
-          · intro x hx
-            simp only [Study.create, List.mem_append, List.mem_singleton] at hx
-            rcases hx with hx | rfl
-            · exact hW.groupOk x hx
-            · exact ⟨w, hw, rfl⟩)
-      apply hinv1.updWorker w (.hold (st.trials.length + 1)) rfl (fun _ => by simpa [Algo.propose] using hsetup)
-      · intro h0; cases h0
-      · intro st' hst'
-        simp only [List.mem_singleton] at hst'; subst hst'
-        refine ⟨?_, fun ht => (nomatch ht)⟩
-        intro t ht
-        have : st.trials.length + 1 = t := by injection ht
-        subst this
-        exact ⟨newTrial (st.trials.length + 1) (s.workers w).group, by simp [Study.create], rfl, rfl⟩
+      by_cases hx : s.algo.spaceExhausted = true
+      · -- StopIteration raised by the proposer inside the critical section: nothing changes
+        simp only [hx, Bool.true_or, if_true]
+        apply hi.updWorker w .exhausted rfl (fun _ => hsetup) (fun h0 => absurd h0 hne)
+        · intro st' hst'
+          rw [hs] at hst'; simp only [List.mem_singleton] at hst'; subst hst'
+          exact ⟨fun t ht => (nomatch ht), fun ht => (nomatch ht), fun _ _ => hlat⟩
+        · intro _; exact hx
+      · have hx' : s.algo.spaceExhausted = false := by simpa using hx
+        simp only [hx', Bool.false_or, Bool.false_eq_true, if_false]
+        cases err with
+        | true =>
+          -- a transient exception of the proposer: nothing changes, the worker leaves the loop
+          simp only [if_true]
+          apply hi.updWorker' w .crashed (by intro h0; cases h0) rfl (fun _ => hsetup) (fun h0 => absurd h0 hne)
+          intro st' _
+          exact ⟨fun t ht => (nomatch ht), fun ht => (nomatch ht)⟩
+        | false =>
+          simp only [Bool.false_eq_true, if_false]
+          have hst1 : ({ s with algo := s.algo.propose } : State).setStudy w (st.create (s.workers w).group)
+              = { s with studies := [st.create (s.workers w).group], algo := s.algo.propose } := by
+            simp [State.setStudy, hi.wstudy w, hs]
+          rw [hst1]
+          have hinv1 := hi.updStudy st (st.create (s.workers w).group) s.algo.propose hs
+            (by simpa [Algo.propose] using hsetup) (hS.create _ hex' hx' hlat) (by
+              intro hW
+              constructor
+              · intro i t hp
+                obtain ⟨tr, htr, h1, h2⟩ := hW.holdOk i t hp
+                exact ⟨tr, by simp [Study.create, htr], h1, h2⟩
+              · intro i hp hact
+                exfalso
+                obtain ⟨⟨m, hm, hlen⟩, -⟩ := hW.finOk i hp (by simpa [Study.create] using hact)
+                simp [exhausted, hm] at hex'
+                omega
+              · intro i hp _
+                exfalso
+                have := hi.exhAlgo i hp
+                rw [hx'] at this; cases this
+              · intro x hx
+                simp only [Study.create, List.mem_append, List.mem_singleton] at hx
+                rcases hx with hx | rfl
+                · exact hW.groupOk x hx
+                · exact ⟨w, hw, rfl⟩) spaceExhausted_propose
+          apply hinv1.updWorker' w (.hold (st.trials.length + 1)) (by intro h0; cases h0) rfl
+            (fun _ => by simpa [Algo.propose] using hsetup)
+          · intro h0; cases h0
+          · intro st' hst'
+            simp only [List.mem_singleton] at hst'; subst hst'
+            refine ⟨?_, fun ht => (nomatch ht)⟩
+            intro t ht
+            have : st.trials.length + 1 = t := by injection ht
+            subst this
+            exact ⟨newTrial (st.trials.length + 1) (s.workers w).group, by simp [Study.create], rfl, rfl⟩
   unfold nextAtomic
   cases hl : st.latest (s.workers w).group with
   | none => exact hcreate (by intro k hk; rw [hl] at hk; cases hk)
@@ -332,7 +368,7 @@ theorem inv_nextAtomic {cfg : LockCfg} {s s' : State} {w : Nat} (hi : Inv s)
     simp only []
     by_cases hp : st.isPending t = true
     · simp only [hp, if_true]
-      apply hi.updWorker w (.hold t) rfl (fun _ => hsetup) (fun h0 => absurd h0 hne)
+      apply hi.updWorker' w (.hold t) (by intro h0; cases h0) rfl (fun _ => hsetup) (fun h0 => absurd h0 hne)
       intro st' hst'
       rw [hs] at hst'; simp only [List.mem_singleton] at hst'; subst hst'
       refine ⟨?_, fun ht => (nomatch ht)⟩
@@ -340,13 +376,45 @@ theorem inv_nextAtomic {cfg : LockCfg} {s s' : State} {w : Nat} (hi : Inv s)
       have : t = t' := by injection ht'
       subst this
       exact hS.latestSome _ _ hl
-    · simp only [hp, if_false]
+    · simp only [hp]
       apply hcreate
       intro k hk
       rw [hl] at hk
       have : t = k := Option.some.inj hk
       subst this
       simpa using hp
+
+/-- backend.next() (needs `nextReuseAtomic`, `createTrialAtomic`, `proposeBeforeBookkeeping`). -/
+theorem inv_nextAtomic {cfg : LockCfg} {s s' : State} {w : Nat} (hpb : cfg.proposeBeforeBookkeeping = true)
+    (hi : Inv s) (h : exec cfg s w .nextAtomic = some s') : Inv s' := by
+  simp only [exec] at h
+  split_ok at h
+  split_ok at h
+  rename_i hw hc
+  simp only [Bool.and_eq_true, beq_iff_eq] at hc
+  obtain ⟨-, hpc⟩ := hc
+  obtain ⟨st, hs⟩ := studies_of_pc hi w (by rw [hpc]; intro h0; cases h0)
+  rw [studyOf_eq hi w hs] at h
+  have hs' := Option.some.inj h
+  subst hs'
+  simp only [hpb, Bool.not_true]
+  exact inv_nextAtomic_core hi hw hpc hs false
+
+/-- backend.next() when the proposer raises a transient exception (same flags). -/
+theorem inv_nextAtomicErr {cfg : LockCfg} {s s' : State} {w : Nat} (hpb : cfg.proposeBeforeBookkeeping = true)
+    (hi : Inv s) (h : exec cfg s w .nextAtomicErr = some s') : Inv s' := by
+  simp only [exec] at h
+  split_ok at h
+  split_ok at h
+  rename_i hw hc
+  simp only [Bool.and_eq_true, beq_iff_eq] at hc
+  obtain ⟨-, hpc⟩ := hc
+  obtain ⟨st, hs⟩ := studies_of_pc hi w (by rw [hpc]; intro h0; cases h0)
+  rw [studyOf_eq hi w hs] at h
+  have hs' := Option.some.inj h
+  subst hs'
+  simp only [hpb, Bool.not_true]
+  exact inv_nextAtomic_core hi hw hpc hs true
 
 /-- done() under the study lock: status test, transition, feedback and bookkeeping are one region
 (needs `doneCheckAndSetAtomic`, `completeTrialAtomic`, `generatorCountersAtomic`). -/
@@ -394,6 +462,7 @@ theorem inv_doneAtomic {cfg : LockCfg} {s s' : State} {w : Nat} (hi : Inv s)
   rw [hst1]
   exact hi.updStudy st _ _ hs (by simpa [Algo.feedback] using hsetup) hfin
     (fun hW => hW.finish tr.id _ (fun _ => rfl) (fun _ => rfl) (fun _ _ => rfl))
+    (spaceExhausted_feedback tr.id)
 
 /-- skip() under the study lock (needs `skipCheckAndSetAtomic`, `completeTrialAtomic`). -/
 theorem inv_skipAtomic {cfg : LockCfg} {s s' : State} {w : Nat} (hi : Inv s)
@@ -425,7 +494,7 @@ theorem inv_skipAtomic {cfg : LockCfg} {s s' : State} {w : Nat} (hi : Inv s)
   simp only [if_true] at hfin
   rw [setStudy_eq hi w hs]
   have := hi.updStudy st _ s.algo hs hsetup hfin
-    (fun hW => hW.finish tr.id _ (fun _ => rfl) (fun _ => rfl) (fun _ _ => rfl))
+    (fun hW => hW.finish tr.id _ (fun _ => rfl) (fun _ => rfl) (fun _ _ => rfl)) id
   exact this
 
 /-- Every step preserves the invariant when all regions are atomic. The actions that are pieces of
@@ -434,13 +503,18 @@ program counters that do not occur. -/
 theorem inv_step {cfg : LockCfg} (hc : cfg.allAtomic = true) {s s' : State} {w : Nat} {a : Act}
     (hi : Inv s) (h : exec cfg s w a = some s') : Inv s' := by
   simp only [LockCfg.allAtomic, Bool.and_eq_true] at hc
-  obtain ⟨⟨⟨⟨⟨⟨⟨⟨⟨⟨f1, f2⟩, f3⟩, f4⟩, f5⟩, f6⟩, f7⟩, f8⟩, f9⟩, f10⟩, f11⟩ := hc
+  obtain ⟨⟨⟨⟨⟨⟨⟨⟨⟨⟨⟨f1, f2⟩, f3⟩, f4⟩, f5⟩, f6⟩, f7⟩, f8⟩, f9⟩, f10⟩, f11⟩, f12⟩ := hc
   have hpc := hi.pcOk w
   cases a with
   | gocAtomic => exact inv_gocAtomic hi h
   | setupAtomic => exact inv_setupAtomic hi h
   | checkActive => exact inv_checkActive hi h
-  | nextAtomic => exact inv_nextAtomic hi h
+  | nextAtomic => exact inv_nextAtomic f12 hi h
+  | nextAtomicErr => exact inv_nextAtomicErr f12 hi h
+  | poll =>
+    simp only [exec] at h
+    split_ok at h
+    cases h; exact hi
   | release => exact inv_release hi h
   | endLoop => exact inv_endLoop hi h
   | measure r => exact inv_measure hi h
